@@ -249,16 +249,24 @@ fn build_service(c: &Cfg, nested: bool, files: &mut Files) -> Result<Arc<dyn Fro
     }
 }
 
-pub fn build_real_model(c: &Cfg, nested: bool, query: &Value, cut: &Option<Vec<usize>>, dir: &Path) -> Result<Arc<dyn FrontierModel>, String> {
+/// the frontier SERVICE (what an application instance keeps for all its queries), tables written under `dir`
+fn build_real_service(c: &Cfg, nested: bool, dir: &Path) -> Result<Arc<dyn FrontierModelService>, String> {
     let mut files = Files { dir: dir.to_path_buf(), n: 0 };
     std::fs::create_dir_all(dir).unwrap();
-    let service = build_service(c, nested, &mut files)?;
+    build_service(c, nested, &mut files)
+}
+/// the per-query model of a service, optionally under the edge-cut wrapper
+fn model_of_service(service: &Arc<dyn FrontierModelService>, query: &Value, cut: &Option<Vec<usize>>) -> Result<Arc<dyn FrontierModel>, String> {
     let sm = Arc::new(StateModel::empty());
     let m = service.build(query, sm).map_err(|e| e.to_string())?;
     Ok(match cut {
         None => m,
         Some(es) => Arc::new(EdgeCutFrontierModel::new(m, es.iter().map(|e| EdgeId(*e)).collect::<HashSet<_>>())),
     })
+}
+pub fn build_real_model(c: &Cfg, nested: bool, query: &Value, cut: &Option<Vec<usize>>, dir: &Path) -> Result<Arc<dyn FrontierModel>, String> {
+    let service = build_real_service(c, nested, dir)?;
+    model_of_service(&service, query, cut)
 }
 
 fn impl_grid(m: &Arc<dyn FrontierModel>, nedges: usize, nprev: usize) -> String {
@@ -336,12 +344,30 @@ fn has_kind(c: &Cfg, k: &str) -> bool {
 }
 
 fn add_fcase(st: &mut Stream, fc: &FCase, dir: &Path) {
+    add_fcase_seq(st, fc, &[], dir)
+}
+/// `prior`: the queries the SAME service instance built a model for (and answered the whole verdict table of) before this
+/// case's query, in order.  The case is judged for its own query alone: a frontier service carries no state from one query
+/// to the next, so M and S are those of the query in isolation.
+fn add_fcase_seq(st: &mut Stream, fc: &FCase, prior: &[Value], dir: &Path) {
     let id = st.next_id();
     let (cfg, nested, query, cut, nedges, nprev) = (fc.cfg.clone(), fc.nested, fc.query.clone(), fc.cut.clone(), fc.nedges, fc.nprev);
     let d = dir.join(format!("c{}", id));
-    let out = catch(move || match build_real_model(&cfg, nested, &query, &cut, &d) {
-        Err(_) => ("Err build".to_string(), String::new()),
-        Ok(m) => ("Ok".to_string(), impl_grid(&m, nedges, nprev)),
+    let prior2: Vec<Value> = prior.to_vec();
+    let out = catch(move || {
+        let service = match build_real_service(&cfg, nested, &d) {
+            Err(_) => return ("Err build".to_string(), String::new()),
+            Ok(s) => s,
+        };
+        for pq in &prior2 {
+            if let Ok(m) = model_of_service(&service, pq, &cut) {
+                let _ = impl_grid(&m, nedges, nprev);
+            }
+        }
+        match model_of_service(&service, &query, &cut) {
+            Err(_) => ("Err build".to_string(), String::new()),
+            Ok(m) => ("Ok".to_string(), impl_grid(&m, nedges, nprev)),
+        }
     })
     .unwrap_or_else(|_| ("Panic".to_string(), String::new()));
     let _ = std::fs::remove_dir_all(dir.join(format!("c{}", id)));
@@ -360,7 +386,7 @@ fn add_fcase(st: &mut Stream, fc: &FCase, dir: &Path) {
         format!("line_S {}%Z {} {} {}", id, common, coq_string(&status), coq_string(&grid)),
     ];
     let desc = json!({"id": id, "family": fc.family, "nested": fc.nested, "cfg": cfg_to_json(&fc.cfg), "query": enc(&fc.query),
-                      "cut": fc.cut, "nedges": fc.nedges, "nprev": fc.nprev, "impl_short": format!("{} {}", status, grid).chars().take(120).collect::<String>()});
+                      "cut": fc.cut, "nedges": fc.nedges, "nprev": fc.nprev, "prior": prior.iter().map(enc).collect::<Vec<_>>(), "impl_short": format!("{} {}", status, grid).chars().take(120).collect::<String>()});
     st.count(&format!("family:{}", fc.family));
     st.count(&format!("status:{}", status));
     st.count(&format!("top:{}", cfg_kind(&fc.cfg)));
@@ -373,6 +399,9 @@ fn add_fcase(st: &mut Stream, fc: &FCase, dir: &Path) {
         st.count("edge_cut");
     }
     count_layouts(st, &fc.cfg);
+    if !prior.is_empty() {
+        st.count(&format!("sequence_position:{}", prior.len() + 1));
+    }
     if fc.nested {
         st.count("direct_composition");
     }
@@ -895,21 +924,39 @@ fn stream_frontier(a: &Args) {
             nedges: c["nedges"].as_u64().unwrap() as usize,
             nprev: c["nprev"].as_u64().unwrap() as usize,
         };
-        add_fcase(&mut st, &fc, &dir);
+        let prior: Vec<Value> = c.get("prior").and_then(|x| x.as_array()).map(|a| a.iter().map(dec).collect()).unwrap_or_default();
+        add_fcase_seq(&mut st, &fc, &prior, &dir);
         st.finish();
         return;
     }
-    for (_, fc) in frontier_witnesses() {
-        add_fcase(&mut st, &fc, &dir);
+    for (_, fc, prior) in frontier_witnesses() {
+        add_fcase_seq(&mut st, &fc, &prior, &dir);
     }
     for fc in boundary_fcases() {
         add_fcase(&mut st, &fc, &dir);
+    }
+    for (family, shape, queries) in sequence_families() {
+        add_sequence(&mut st, &family, &shape, &queries, &dir, usize::MAX);
     }
     let mut rng = Rng::new(a.seed);
     while st.next_id() < a.n {
         let mut r = rng.fork();
         let fc = random_fcase(&mut r);
-        add_fcase(&mut st, &fc, &dir);
+        if r.chance(1, 5) && (has_kind(&fc.cfg, "vehicle") || has_kind(&fc.cfg, "road_class")) {
+            // 2-4 queries in a row on one service: the generated query and variations of it
+            let mut queries = vec![fc.query.clone()];
+            for _ in 0..1 + r.below(3) {
+                let last = queries.last().unwrap().clone();
+                let from_last = r.chance(2, 3);
+                queries.push(vary_query(&mut r, if from_last { &last } else { &fc.query }));
+            }
+            if r.chance(1, 2) {
+                queries.reverse();
+            }
+            add_sequence(&mut st, "random_sequence", &fc, &queries, &dir, a.n);
+        } else {
+            add_fcase(&mut st, &fc, &dir);
+        }
     }
     let _ = std::fs::remove_dir_all(&dir);
     st.finish();
@@ -1210,8 +1257,103 @@ fn regression_witnesses() -> Vec<(&'static str, SCase)> {
     ]
 }
 
+/// sequences of queries on ONE service instance (an application keeps its frontier service for all its queries):
+/// (family, configuration with its shape, the queries in order).  Every query of a sequence becomes one case whose `prior`
+/// is the queries before it.
+fn sequence_families() -> Vec<(String, FCase, Vec<Value>)> {
+    let mut out = vec![];
+    // a 3.5 m bridge, a 10 t bridge, a 30 ft limit, a 100 in width limit, a 0.01 mile trailer limit, 3 t per axle
+    let rows = vec![
+        (0usize, "maximum_height".to_string(), 3.5, "meters".to_string()),
+        (1, "maximum_total_weight".to_string(), 10.0, "tons".to_string()),
+        (2, "maximum_length".to_string(), 30.0, "feet".to_string()),
+        (3, "maximum_width".to_string(), 100.0, "inches".to_string()),
+        (4, "maximum_trailer_length".to_string(), 0.01, "miles".to_string()),
+        (5, "maximum_weight_per_axle".to_string(), 3.0, "tons".to_string()),
+    ];
+    let shape = |cfg: Cfg| FCase { family: String::new(), nested: false, cfg, query: json!({}), cut: None, nedges: 7, nprev: 0 };
+    // the same six numbers in small units and in large units
+    let small = Vehicle { height: (4.0, 4), width: (2.5, 4), total_length: (20.0, 4), trailer_length: (13.0, 4), total_weight: (9.0, 0), axles: 2 };
+    let large = Vehicle { height: (4.0, 0), width: (2.5, 0), total_length: (20.0, 0), trailer_length: (13.0, 0), total_weight: (9.0, 1), axles: 2 };
+    let mixed = Vehicle { height: (4.0, 0), width: (2.5, 4), total_length: (20.0, 0), trailer_length: (13.0, 4), total_weight: (9.0, 2), axles: 2 };
+    let vq = |v: &Vehicle| json!({"vehicle_parameters": v.query()});
+    let veh_cfg = Cfg::Vehicle { rows: rows.clone() };
+    for (name, seq) in [
+        ("smaller_first", vec![vq(&small), vq(&large)]),
+        ("larger_first", vec![vq(&large), vq(&small)]),
+        ("alternating", vec![vq(&small), vq(&large), vq(&mixed), vq(&small)]),
+        ("repeated", vec![vq(&large), vq(&large), vq(&small)]),
+    ] {
+        out.push((format!("sequence_same_numbers_other_units_{}", name), shape(veh_cfg.clone()), seq.clone()));
+        out.push((format!("sequence_same_numbers_other_units_{}", name),
+                  shape(Cfg::Combined(vec![Cfg::Turn { pairs: vec![(0, 1)] }, veh_cfg.clone()])), seq));
+    }
+    // different vehicles: a van and a truck
+    let van = Vehicle { height: (2.5, 0), width: (2.0, 0), total_length: (6.0, 0), trailer_length: (1.0, 0), total_weight: (3.5, 1), axles: 2 };
+    let truck = Vehicle { height: (4.5, 0), width: (2.6, 0), total_length: (18.0, 0), trailer_length: (17.0, 0), total_weight: (40.0, 1), axles: 5 };
+    for (name, seq) in [
+        ("van_then_truck", vec![vq(&van), vq(&truck)]),
+        ("truck_then_van", vec![vq(&truck), vq(&van)]),
+        ("van_truck_van_truck", vec![vq(&van), vq(&truck), vq(&van), vq(&truck)]),
+    ] {
+        out.push((format!("sequence_different_vehicles_{}", name), shape(veh_cfg.clone()), seq.clone()));
+        out.push((format!("sequence_different_vehicles_{}", name), FCase { cut: Some(vec![6]), ..shape(Cfg::Combined(vec![veh_cfg.clone(), Cfg::None])) }, seq));
+    }
+    // road classes: different allowed sets one after another, an ill-formed query in between
+    let rc = Cfg::RoadClass { lookup: vec![0, 1, 2, 7, 71, 0, 1], mapping: vec![("road".into(), 0), ("path".into(), 1), ("track".into(), 2)] };
+    out.push(("sequence_road_classes".into(), shape(rc.clone()),
+              vec![json!({"road_classes": [0]}), json!({"road_classes": ["path", "track"]}), json!({}), json!({"road_classes": [7]}), json!({"road_classes": [0, "road"]}), json!({"road_classes": [71]})]));
+    out.push(("sequence_road_classes_and_vehicles".into(), shape(Cfg::Combined(vec![rc, veh_cfg.clone()])),
+              vec![json!({"road_classes": [0, 1, 2], "vehicle_parameters": van.query()}), json!({"road_classes": [0, 7, 71], "vehicle_parameters": truck.query()}),
+                   json!({"road_classes": [1], "vehicle_parameters": small.query()}), json!({"vehicle_parameters": large.query()})]));
+    out
+}
+fn add_sequence(st: &mut Stream, family: &str, shape: &FCase, queries: &[Value], dir: &Path, limit: usize) {
+    for k in 0..queries.len() {
+        if st.next_id() >= limit {
+            break;
+        }
+        let fc = FCase { family: family.to_string(), query: queries[k].clone(), ..shape_clone(shape) };
+        add_fcase_seq(st, &fc, &queries[..k], dir);
+    }
+}
+fn shape_clone(fc: &FCase) -> FCase {
+    FCase { family: fc.family.clone(), nested: fc.nested, cfg: fc.cfg.clone(), query: fc.query.clone(), cut: fc.cut.clone(), nedges: fc.nedges, nprev: fc.nprev }
+}
+/// a variation of a query for the next step of a sequence: the same numbers in other units, a scaled vehicle, another class set
+fn vary_query(r: &mut Rng, q: &Value) -> Value {
+    let mut q = q.clone();
+    if let Some(vp) = q.get_mut("vehicle_parameters").and_then(|x| x.as_object_mut()) {
+        let scale = match r.below(3) { 0 => 1.0, 1 => 0.5, _ => 2.0 };
+        for f in ["height", "width", "total_length", "trailer_length", "total_weight"] {
+            if let Some(arr) = vp.get_mut(f).and_then(|x| x.as_array_mut()) {
+                if arr.len() == 2 {
+                    if let Some(x) = arr[0].as_f64() {
+                        arr[0] = json!(x * scale);
+                    }
+                    if r.chance(1, 2) {
+                        arr[1] = json!(if f == "total_weight" { WEIGHT_UNITS[r.below(3) as usize].0 } else { DIST_UNITS[r.below(5) as usize].0 });
+                    }
+                }
+            }
+        }
+        if r.chance(1, 3) {
+            vp.insert("number_of_axles".into(), json!(1 + r.below(6)));
+        }
+    }
+    if let Some(rc) = q.get_mut("road_classes").and_then(|x| x.as_array_mut()) {
+        if !rc.is_empty() && r.chance(1, 2) {
+            let i = r.below(rc.len() as u64) as usize;
+            rc.remove(i);
+        } else if rc.iter().all(|x| x.is_u64()) {
+            rc.push(json!(r.below(256)));
+        }
+    }
+    q
+}
+
 /// frontier-stream regression witnesses
-fn frontier_witnesses() -> Vec<(&'static str, FCase)> {
+fn frontier_witnesses() -> Vec<(&'static str, FCase, Vec<Value>)> {
     let veh = Vehicle { height: (4.0, 0), width: (2.5, 0), total_length: (20.0, 0), trailer_length: (13.5, 0), total_weight: (36.0, 1), axles: 1 };
     let rows = vec![
         (0usize, "maximum_total_weight".to_string(), 36.0, "tons".to_string()),
@@ -1219,23 +1361,38 @@ fn frontier_witnesses() -> Vec<(&'static str, FCase)> {
         (2, "maximum_height".to_string(), 4.0, "meters".to_string()),
         (3, "maximum_weight_per_axle".to_string(), 36.0, "tons".to_string()),
     ];
+    let seq_small = Vehicle { height: (4.0, 4), width: (2.5, 4), total_length: (20.0, 4), trailer_length: (13.0, 4), total_weight: (9.0, 0), axles: 2 };
+    let seq_large = Vehicle { height: (4.0, 0), width: (2.5, 0), total_length: (20.0, 0), trailer_length: (13.0, 0), total_weight: (9.0, 1), axles: 2 };
+    let seq_van = Vehicle { height: (2.5, 0), width: (2.0, 0), total_length: (6.0, 0), trailer_length: (1.0, 0), total_weight: (3.5, 1), axles: 2 };
+    let seq_truck = Vehicle { height: (4.5, 0), width: (2.6, 0), total_length: (18.0, 0), trailer_length: (17.0, 0), total_weight: (40.0, 1), axles: 5 };
     vec![
         // seeded/C04-11: header next_edge_id,prev_edge_id / a leading extra column
         ("seed_C04-11_turn_columns_swapped", FCase { family: "corpus_turn_file_layout".into(), nested: false, cfg: turn_with_layout(&[(0, 1), (2, 0)], "permX_extras0"),
-                                                     query: json!({}), cut: None, nedges: 3, nprev: 3 }),
+                                                     query: json!({}), cut: None, nedges: 3, nprev: 3 }, vec![]),
         ("seed_C04-11_turn_leading_column", FCase { family: "corpus_turn_file_layout".into(), nested: false, cfg: turn_with_layout(&[(0, 1), (2, 0)], "permId_extras1"),
-                                                    query: json!({}), cut: None, nedges: 3, nprev: 3 }),
+                                                    query: json!({}), cut: None, nedges: 3, nprev: 3 }, vec![]),
         // `<=`: a vehicle exactly at the limit is admitted
         ("at_the_limit_is_admitted", FCase { family: "corpus_at_the_limit".into(), nested: false, cfg: Cfg::Vehicle { rows }, query: json!({"vehicle_parameters": veh.query()}),
-                                             cut: None, nedges: 4, nprev: 0 }),
+                                             cut: None, nedges: 4, nprev: 0 }, vec![]),
+        // seeded/C04-13: one service, height [4.0, feet] first, then [4.0, meters] under a 3.5 m bridge (edge 0)
+        ("seed_C04-13_same_numbers_other_units", FCase { family: "corpus_sequence".into(), nested: false,
+            cfg: Cfg::Vehicle { rows: vec![(0, "maximum_height".to_string(), 3.5, "meters".to_string()), (1, "maximum_total_weight".to_string(), 10.0, "tons".to_string())] },
+            query: json!({"vehicle_parameters": seq_large.query()}), cut: None, nedges: 3, nprev: 0 }, vec![json!({"vehicle_parameters": seq_small.query()})]),
+        // seeded/C05-14: one service, a 2.5 m van first, then a 4.5 m truck under a 4 m bridge; and the other way round
+        ("seed_C05-14_van_then_truck", FCase { family: "corpus_sequence".into(), nested: false,
+            cfg: Cfg::Vehicle { rows: vec![(0, "maximum_height".to_string(), 4.0, "meters".to_string())] },
+            query: json!({"vehicle_parameters": seq_truck.query()}), cut: None, nedges: 2, nprev: 0 }, vec![json!({"vehicle_parameters": seq_van.query()})]),
+        ("seed_C05-14_truck_then_van", FCase { family: "corpus_sequence".into(), nested: false,
+            cfg: Cfg::Vehicle { rows: vec![(0, "maximum_height".to_string(), 4.0, "meters".to_string())] },
+            query: json!({"vehicle_parameters": seq_van.query()}), cut: None, nedges: 2, nprev: 0 }, vec![json!({"vehicle_parameters": seq_truck.query()})]),
     ]
 }
 
 fn write_corpus(a: &Args) {
     std::fs::create_dir_all(&a.out).unwrap();
-    for (name, fc) in frontier_witnesses() {
+    for (name, fc, prior) in frontier_witnesses() {
         let desc = json!({"id": 0, "family": fc.family, "nested": fc.nested, "cfg": cfg_to_json(&fc.cfg), "query": enc(&fc.query),
-                          "cut": fc.cut, "nedges": fc.nedges, "nprev": fc.nprev});
+                          "cut": fc.cut, "nedges": fc.nedges, "nprev": fc.nprev, "prior": prior.iter().map(enc).collect::<Vec<_>>()});
         let v = json!({"stream": "frontier", "finding": name, "case": desc});
         std::fs::write(a.out.join(format!("{}.json", name)), serde_json::to_string_pretty(&v).unwrap() + "\n").unwrap();
     }
